@@ -128,7 +128,8 @@ func c05(p *P) {
 	r.Rule("C05.R8", "validation cache structures: map accesses under their mutex; key binds namespace and value", 6)
 
 	vm := p.fn("C05.R1", "gpbft.cachingValidator.validateMessageWithVoteValueKey")
-	noHit := union(callResult("", "gpbft.cachingValidator.isAlreadyValidated", "", 0, avFalse))
+	// the cache lookup: the validator's wrapper or the grouped set's Contains called directly
+	noHit := union(callResult("", "gpbft.cachingValidator.isAlreadyValidated", "", 0, avFalse), callResult("", "internal/caching.GroupedSet.Contains", "", 0, avFalse))
 	// ---------------- R1
 	if vm != nil {
 		sinks := okReturns(vm)
@@ -178,6 +179,7 @@ func c05(p *P) {
 		fixed := union(
 			noHit,
 			callResult("", "gpbft.cachingValidator.isAlreadyValidated", "", 1, avNil),
+			callResult("", "internal/caching.GroupedSet.Contains", "", 1, avNil),
 			callResult("", "iface:CommitteeProvider.GetCommittee", "", 1, avNil),
 			cmpRel("", `gpbft\.PowerTable\.Get\(.*\$4\.Sender\)#0$`, `^0$`, RelNE),
 			callResult("", "gpbft.ECChain.Validate", `\$4\.Vote\.Value`, -1, avNil),
@@ -406,7 +408,13 @@ func c05(p *P) {
 		p.guarded("C05.R6", fn, okReturns(fn), errFails("marshal ok", "iface:Marshaler.MarshalCBOR", ""))
 	}
 	// isAlreadyValidated is read-only
-	if fn := p.fn("C05.R6", "gpbft.cachingValidator.isAlreadyValidated"); fn != nil {
+	if fn := p.c.Fn("gpbft.cachingValidator.isAlreadyValidated"); fn == nil {
+		direct := 0
+		if vm != nil {
+			direct = len(callsTo(vm, false, "internal/caching.GroupedSet.Contains"))
+		}
+		r.Check(direct > 0, "C05.R6", "isAlreadyValidated: read-only lookup", "", "the validator consults GroupedSet.Contains directly (read-only by C05.R8)", "no cache lookup found in validateMessageWithVoteValueKey")
+	} else {
 		var callees []string
 		for _, cs := range callSites(fn, false) {
 			if strings.Contains(cs.Callee(), "caching.") {
@@ -661,17 +669,8 @@ func c05(p *P) {
 					if !hit {
 						continue
 					}
-					held := heldAt(f, in, spec.mu, true)
-					// unexported helpers called only with the lock held
-					if !held && f.Name() == "evict" {
-						held = true
-						for _, cs := range p.callersOf(funcName(f)) {
-							if cs.Instr == nil || !heldAt(cs.Fn, cs.Instr, "&$0.mu", true) {
-								held = false
-							}
-						}
-					}
-					r.Check(held, "C05.R8", fmt.Sprintf("%s: %s.%s accessed under mu", funcName(f), spec.typ, fnm), p.c.InstrPos(in), "lock held", "validation-cache state accessed without its mutex")
+					held := p.heldAtOrByCallers(f, in, spec.mu, true, 0)
+				r.Check(held, "C05.R8", fmt.Sprintf("%s: %s.%s accessed under mu", funcName(f), spec.typ, fnm), p.c.InstrPos(in), "lock held", "validation-cache state accessed without its mutex")
 				}
 			}
 		}
@@ -714,7 +713,7 @@ func (p *P) cacheUse(rule string, fn *ssa.Function, group, kind, valueKeyParam s
 	var keys []string
 	for _, cs := range callSites(fn, false) {
 		c := cs.Callee()
-		if c != "gpbft.cachingValidator.isAlreadyValidated" && c != "internal/caching.GroupedSet.Add" {
+		if c != "gpbft.cachingValidator.isAlreadyValidated" && c != "internal/caching.GroupedSet.Add" && c != "internal/caching.GroupedSet.Contains" {
 			continue
 		}
 		n++
